@@ -463,7 +463,7 @@ def generate(rng, profile):
     kinds_pool = list(KINDS)
     sub_rate = rng.choice([0.1, 0.25, 0.45])
     label_inserts = rng.random() < 0.05       # labels on '>'/'+' instructions: mechanism of finding C04-label-on-inserted-instruction
-    keep_inserts = rng.random() < 0.03        # @keep on a line that also inserts instructions: finding C04-keep-reaches-inserted-instructions
+    keep_inserts = rng.random() < 0.5         # @keep on a line whose directives also insert/overwrite instructions (the line's own instruction alone is kept; repaired in fe78f4a)
     keep_insert_seen = False
     for ei, ent in enumerate(entries):
         lines = ent['lines']
@@ -629,7 +629,15 @@ def generate(rng, profile):
                         follow.append(lines[j])
                         j += 1
                     room = ln.op.size + sum(f.op.size for f in follow)
-                    o = g.any_op(min(4, room))
+                    if room >= 3 and keep_inserts and rng.random() < 0.5:
+                        # the line's own instruction replaced by an overwriting operation with an address operand, under
+                        # @keep: the number must stay as written in both tools even when its target has moved
+                        o = g.fill(*rng.choice([(f, t, 3) for f, t in BY_SIZE[3] if '{nn}' in t]))
+                        if not any(isinstance(p, str) and p.startswith('@keep') for p in ln.pre):
+                            ln.pre.append('@keep' if rng.random() < 0.6 or not o.refs else '@keep=' + g.num(o.refs[0], 4))
+                        g.features.add('keep+overwrite')
+                    else:
+                        o = g.any_op(min(4, room))
                     if o.size > room:
                         continue
                     ops.append(o)
